@@ -8,7 +8,7 @@ LEAN_TARGETS = ["TornadoModel.C19.Props"]
 _T = "TornadoModel.C19."
 THEOREMS = [_T + n for n in [
     "lex_src", "lex_line_invariant", "scan_total", "text_verbatim", "text_only_output", "escape_sequences",
-    "triple_brace_innermost", "parse_error_line", "unterminated_error_line",
+    "triple_brace_innermost", "parse_error_line", "parse_error_located", "unterminated_error_line",
     "filter_all_identity", "filter_oneline_idempotent", "filter_idempotent",
     "filter_single_idempotent", "filter_whitespace_idempotent",
     "gen_balanced", "gen_stack_balanced", "control_body_nonempty",
@@ -49,7 +49,7 @@ RULE = ("grammar-directed templates (nesting <= 4, DictLoader with extends chain
         "distinct by canonical JSON of the case")
 EXHAUSTIVE = {"quick": False, "thorough": False}
 CLAUSE_CAVEATS = [
-    'parse_error_line only bounds the reported line to a line of the template; that it is the line of the offending directive is proved for unterminated constructs (unterminated_error_line) and decided by the fault-injection tie for the other 20 error kinds',
+    'parse_error_located pins every ParseError to the first directive the builder rejects (all 21 kinds); the line named is reader.line just BEHIND that directive (its last line when it spans several lines - the behaviour of the code, the oracle accepts the span first..last line); that the real _parse rejects the same directive as the model is the fault-injection tie',
     'interp_matches_gen_structure_partial covers text, expressions, raw, if/elif/else, for, set, break, continue; apply, block/extends/include, while, try, import are tie-only',
 ]
 CLAUSES = {
@@ -62,7 +62,11 @@ CLAUSES = {
         "outside the fragment (apply, block/extends/include, while, try, import) tie only "
         "(interp_matches_gen_structure_goal)",
     "templates that are not well-formed raise a ParseError naming the correct line":
-        "parse_error_line, unterminated_error_line, lex_line_invariant + fault-injection oracle (file and line span of the injected fault)",
+        "parse_error_located (every error: raised by the first directive stepTok rejects after all earlier tokens were accepted, that "
+        "directive sits at the stated source offset, opens on lineAt(offset) and the reported line is lineAt(offset just behind its "
+        "closing marker); or the input ran out and the line is that of the offset where the rest / the unclosed directive starts), "
+        "parse_error_line (weaker: some offset), unterminated_error_line, lex_line_invariant + fault-injection oracle (file and line "
+        "span of the injected fault)",
     "literal text is reproduced byte-for-byte apart from the selected whitespace filtering":
         "lex_src, text_verbatim, text_only_output, escape_sequences, triple_brace_innermost, filter_all_identity, filter_single_idempotent, filter_whitespace_idempotent (all three modes; also checked on every filter case)",
     "extends, block and include through a loader":
